@@ -39,7 +39,7 @@ from typing import Optional
 from liquid import Environment
 from liquid.exceptions import LiquidError
 
-from vf.hx import excluded, finish
+from vf.hx import cint, excluded, finish, untraced
 
 PROPERTY = "C26"
 ENV = Environment(extra=True)
@@ -584,6 +584,41 @@ for _cls in TAG_CLASSES:
     CONDITIONS.append({"fn": _n, "quick": None, "thorough": 300,
                        "bounds": "%d tag message texts of class %s from exactly 3 fragments; 4 tag forms; values: str len <= 1 over 'a%%'"
                                  % (len(TAG_BY_CLASS["k3"][_cls]), _cls)})
+
+
+# ---- the tag's whitespace collapsing with every kind of whitespace around a line break ---------------------------------
+WS_POOL = ["", " ", chr(9), chr(13), chr(12), chr(11), chr(0xA0), chr(0x2003), chr(0x85), "  ", chr(13) + " ", " " + chr(13)]
+_WS_T = {}
+
+
+def ws_case(pi, qi, fi):
+    msg = "x" + WS_POOL[pi] + chr(10) + WS_POOL[qi] + "{{ name }}y" + WS_POOL[qi] + chr(10) + WS_POOL[pi] + "z"
+    key = (pi, qi, fi)
+    if key not in _WS_T:
+        _WS_T[key] = ENV.from_string(TAG_FORMS[fi] % msg)
+    parts = tag_parts(msg)
+    data = {"name": "N", "k": "K"}
+    out = render(_WS_T[key], data)
+    variables = {"name": "K" if fi == 3 else "N"}
+    return out, substitute(parts[0], variables), substitute(parts[1], variables)
+
+
+def c26_tag_whitespace(pi: int, qi: int, fi: int) -> bool:
+    """
+    pre: 0 <= pi <= 11 and 0 <= qi <= 11 and 0 <= fi <= 3
+    post: _
+    """
+    if excluded("c26_tag_whitespace", locals()):
+        return True
+    pi, qi, fi = cint(pi, 0, 11), cint(qi, 0, 11), cint(fi, 0, 3)
+    out, e1, e2 = untraced(lambda: ws_case(pi, qi, fi))
+    return finish(out == e1 or out == e2)
+
+
+DETAIL["c26_tag_whitespace"] = lambda pi, qi, fi: dict(zip(("observed", "expected (runs with a line break collapsed)", "expected (all runs collapsed)"),
+                                                         [repr(x) for x in ws_case(pi, qi, fi)]))
+CONDITIONS.append({"fn": "c26_tag_whitespace", "quick": 60, "thorough": 120, "sel_only": True,
+                   "bounds": "12 x 12 whitespace strings (space, tab, CR, FF, VT, NBSP, em space, NEL, combinations) before / after a line break, 4 tag forms"})
 
 
 ASSUMPTIONS = [
